@@ -349,7 +349,8 @@ class C04Checker(Checker):
         self.prev_best = tb.fitness
         if not self.has_local:
             self._scan_calls(run, problem)
-            if self.best_call is not None and tb.fitness != self.best_call and not math.isinf(tb.fitness):
+            worst = -math.inf if self.sc["maximize"] else math.inf
+            if self.best_call is not None and tb.fitness != self.best_call and tb.fitness != worst:
                 self.fail(
                     "best-not-best-observed",
                     f"metaepoch {tree.metaepoch_count}: reported best {tb.fitness!r} but the best value the objective ever returned is {self.best_call!r}",
@@ -1161,14 +1162,26 @@ class C20Checker(Checker):
         self.n_boundaries = 0
 
     # -- report vs attributes ----------------------------------------------------------------
-    @staticmethod
-    def _true_best(problem, inds):
-        """brute force over the histories (the accessors under test are not trusted as the oracle)"""
+    def _true_best(self, problem, inds):
+        """brute force over the histories (the accessors under test are not trusted as the oracle).
+        NaN ranks below every number; the problem's own worse_than is not called (it flips coins for NaN pairs)."""
+        mx = bool(self.sc["maximize"])
         b = None
         for i in inds:
-            if b is None or better(problem, i.fitness, b.fitness):
+            if b is None:
+                b = i
+                continue
+            fa, fb = float(i.fitness), float(b.fitness)
+            if fa != fa:
+                continue
+            if fb != fb or (fa > fb if mx else fa < fb):
                 b = i
         return b
+
+    @staticmethod
+    def _samef(a, b) -> bool:
+        a, b = float(a), float(b)
+        return a == b or (a != a and b != b)
 
     def _check_reports(self, run):
         tree = run.tree
@@ -1178,9 +1191,9 @@ class C20Checker(Checker):
         best = self._true_best(problem0, [b for b in true_deme_best.values() if b is not None])
         for d in demes.values():
             tb, rb = true_deme_best[d.id], d.best_individual
-            if tb is not None and (rb is None or rb.fitness != tb.fitness):
+            if tb is not None and (rb is None or not self._samef(rb.fitness, tb.fitness)):
                 self.fail(f"accessor/deme-best-stale/{type(d).__name__}", f"metaepoch {tree.metaepoch_count}: deme {d.id}.best_individual reports fitness {None if rb is None else rb.fitness!r} but its history holds {tb.fitness!r}")
-        if tree.best_individual.fitness != best.fitness:
+        if not self._samef(tree.best_individual.fitness, best.fitness):
             self.fail("accessor/tree-best-stale", f"metaepoch {tree.metaepoch_count}: tree.best_individual reports {tree.best_individual.fitness!r} but the histories hold {best.fitness!r}")
         text = tree.summary()
         head, _, rest = text.partition("\n\nLevel 1.")
@@ -1203,6 +1216,11 @@ class C20Checker(Checker):
         # level sections
         body = "Level 1." + rest
         tree_text = tree.tree()
+        nan_obj = self.sc["objective"]["family"] == "nanhole"
+        if nan_obj:
+            # two renderings of a tree with NaN individuals may differ (coin-flipped ties): take summary()'s own tail
+            k = text.rfind("\n\n" + type(tree.root).__name__ + " root")
+            tree_text = text[k + 2:] if k >= 0 else tree_text
         if not text.endswith("\n" + tree_text):
             self.fail("summary/tree-part", "summary() does not end with tree()")
         body = body[: len(body) - len(tree_text) - 1] if text.endswith("\n" + tree_text) else body
@@ -1261,7 +1279,7 @@ class C20Checker(Checker):
             if m["fit"] != f"{tb.fitness:.2e}":
                 self.fail("tree/deme-fitness", f"tree() shows fitness {m['fit']} for deme {did}, its best is {tb.fitness:.2e}")
             star = m["star"].strip() == "***"
-            want = tb.fitness == best.fitness
+            want = float(tb.fitness) == float(best.fitness)  # (the report's own rule: equal fitness; NaN never equals)
             if star != want:
                 self.fail(
                     "tree/best-marker/" + ("missing" if want else "spurious") + ("/zero-best" if best.fitness == 0 else ""),
@@ -1337,7 +1355,10 @@ class C20Checker(Checker):
         if every > 1 and (k % every) != int(self.sc.get("observe_offset", 0)) % every:
             return
         self._check_reports(run)
-        self._check_purity(run)
+        if self.sc["objective"]["family"] != "nanhole":
+            # (ties between NaN values are broken by coin flips inside worse_than: on NaN-valued objectives the
+            #  accessors legitimately consume randomness and may answer differently; only the reports are judged there)
+            self._check_purity(run)
 
 
 # ------------------------------------------------------------------------------------------------
